@@ -13,6 +13,17 @@
 //!   @ autodiff <seed>                             Record / Trace expressions: values, derivatives,
 //!                                                 tape positions
 //!   @ display <seed>                              Display / Debug of tensors, views, matrices, errors
+//!   @ format <family> <seed>                      formatted output: `{}`, `{:.3}`, `{:?}`, `{:#?}` (where
+//!                                                 implemented) of tensors of every dimensionality
+//!                                                 0..=6, views over every adaptor kind, TensorAccess
+//!                                                 / TensorTranspose (with the data layout line),
+//!                                                 matrices, matrix views, partitions and quadrants,
+//!                                                 decomposition structs, every error type, Record /
+//!                                                 Trace / record containers — each as
+//!                                                 `<fnv1a-64 of the text>/<length>:<first line>`
+//!   @ fmtint <shape> <base> <plain|prec|access:<names>>   the full text of `Display` of an i64 tensor
+//!                                                 (or of `index_by(names)` of it): this one is also
+//!                                                 compared with the Lean model of `format_view`
 //!   @ messages <seed>                             the TEXT of panic messages and of `Display`ed error
 //!                                                 values of invalid calls (several unknown / repeated
 //!                                                 names, bad shapes, records of two different
@@ -29,11 +40,13 @@
 
 use crate::util::*;
 use easy_ml::differentiation::{Record, RecordMatrix, RecordTensor, Trace, WengertList};
-use easy_ml::distributions::Gaussian;
+use easy_ml::distributions::{Gaussian, MultivariateGaussianTensor};
 use easy_ml::linear_algebra;
 use easy_ml::matrices::Matrix;
 use easy_ml::numeric::extra::{Cos, Exp, Ln, Sin, Sqrt};
-use easy_ml::tensors::views::{IndexRange, TensorChain, TensorRange, TensorView};
+use easy_ml::matrices::views::{IndexRange as MIndexRange, MatrixRange, MatrixReverse, MatrixView, Reverse};
+use easy_ml::tensors::indexing::TensorTranspose;
+use easy_ml::tensors::views::{IndexRange, TensorChain, TensorRange, TensorStack, TensorView};
 use easy_ml::tensors::Tensor;
 
 fn hex(x: f64) -> String {
@@ -238,6 +251,243 @@ fn display(seed: u64) -> String {
     esc(&parts.join(" ¦ "))
 }
 
+fn fnv(s: &str) -> u64 {
+    s.bytes().fold(0xcbf29ce484222325u64, |h, b| (h ^ b as u64).wrapping_mul(0x100000001b3))
+}
+
+/// digest, length and first line of a formatted text
+fn dg(s: String) -> String {
+    format!("{:016x}/{}:{}", fnv(&s), s.len(), esc(s.lines().next().unwrap_or("")))
+}
+
+macro_rules! all4 {
+    ($x:expr) => {
+        vec![dg(format!("{}", $x)), dg(format!("{:.3}", $x)), dg(format!("{:?}", $x)), dg(format!("{:#?}", $x))]
+    };
+}
+macro_rules! disp2 {
+    ($x:expr) => {
+        vec![dg(format!("{}", $x)), dg(format!("{:.2}", $x))]
+    };
+}
+macro_rules! dbg2 {
+    ($x:expr) => {
+        vec![dg(format!("{:?}", $x)), dg(format!("{:#?}", $x))]
+    };
+}
+
+fn format_tensor_d<const D: usize>(rng: &mut Rng) -> Vec<String> {
+    let names = ["a", "b", "c", "d", "e", "f"];
+    // lengths 1..3: every "end of a block" branch of the generic D >= 4 layout is reached
+    let shape: [(&'static str, usize); D] = std::array::from_fn(|i| (names[i], rng.range(1, 3)));
+    let n: usize = shape.iter().map(|d| d.1).product();
+    let t = Tensor::from(shape, values(rng, n));
+    let mut out = all4!(t);
+    out.extend(disp2!(TensorView::from(&t)));
+    out.extend(dbg2!(TensorView::from(&t)));
+    out.extend(disp2!(t.index()));
+    out.extend(dbg2!(t.index()));
+    let mut rev: [&'static str; D] = std::array::from_fn(|i| names[i]);
+    rev.reverse();
+    out.extend(disp2!(t.index_by(rev)));
+    out.extend(disp2!(t.transpose_view(rev)));
+    out.extend(disp2!(TensorTranspose::from(&t, rev)));
+    out.extend(dbg2!(TensorTranspose::from(&t, rev)));
+    out
+}
+
+fn format_views(rng: &mut Rng) -> Vec<String> {
+    let t = Tensor::from([("a", 3), ("b", 2), ("c", 4)], values(rng, 24));
+    let u = Tensor::from([("a", 3), ("b", 2), ("c", 4)], values(rng, 24));
+    let mut out = vec![];
+    let r = t.range([("a", IndexRange::new(1, 2)), ("c", IndexRange::new(0, 3))]).unwrap();
+    out.extend(disp2!(r));
+    out.extend(dbg2!(r));
+    let m = t.mask([("c", IndexRange::new(1, 2))]).unwrap();
+    out.extend(disp2!(m));
+    out.extend(dbg2!(m));
+    let rv = t.reverse(&["a", "c"]);
+    out.extend(disp2!(rv));
+    out.extend(dbg2!(rv));
+    let rn = t.rename_view(["x", "y", "z"]);
+    out.extend(disp2!(rn));
+    out.extend(dbg2!(rn));
+    let sel = t.select([("b", 1)]);
+    out.extend(disp2!(sel));
+    out.extend(dbg2!(sel));
+    let ex = t.expand([(1, "n")]);
+    out.extend(disp2!(ex));
+    out.extend(dbg2!(ex));
+    let st = TensorView::from(TensorStack::<f64, (_, _), 3>::from((&t, &u), (0, "s")));
+    out.extend(disp2!(st));
+    out.extend(dbg2!(st));
+    let ch = TensorView::from(TensorChain::<f64, [_; 2], 3>::from([&t, &u], "b"));
+    out.extend(disp2!(ch));
+    out.extend(dbg2!(ch));
+    // compositions, and a TensorAccess / TensorTranspose over a view (non-linear layouts)
+    out.extend(disp2!(r.index_by(["c", "b", "a"])));
+    out.extend(dbg2!(r.index_by(["c", "b", "a"])));
+    out.extend(disp2!(rv.transpose_view(["b", "c", "a"])));
+    out.extend(disp2!(sel.reverse(&["c"]).index_by(["c", "a"])));
+    let mat = Matrix::from_flat_row_major((2, 3), values(rng, 6));
+    let tm = TensorView::from(easy_ml::interop::TensorRefMatrix::from(&mat).unwrap());
+    out.extend(disp2!(tm));
+    out.extend(dbg2!(tm));
+    out.extend(disp2!(t.map(|x| x as f32)));
+    out.extend(all4!(Tensor::from([("i", 2), ("j", 2)], vec![-3i64, 40, 500, -6000])));
+    out.extend(all4!(Tensor::from([("s", 2)], vec!["left", "right"])));
+    out
+}
+
+fn format_matrices(rng: &mut Rng) -> Vec<String> {
+    let mut m = Matrix::from_flat_row_major((3, 4), values(rng, 12));
+    let mut out = all4!(m);
+    out.extend(all4!(Matrix::from_scalar(value(rng))));
+    out.extend(all4!(Matrix::row(values(rng, 3))));
+    out.extend(all4!(Matrix::column(values(rng, 3))));
+    {
+        let v = MatrixView::from(&m);
+        out.extend(disp2!(v));
+        out.extend(dbg2!(v));
+        let r = MatrixView::from(MatrixRange::from(&m, MIndexRange::new(1, 2), MIndexRange::new(0, 3)));
+        out.extend(disp2!(r));
+        out.extend(dbg2!(r));
+        let rv = MatrixView::from(MatrixReverse::from(&m, Reverse { rows: true, columns: false }));
+        out.extend(disp2!(rv));
+        out.extend(dbg2!(rv));
+        let empty = MatrixView::from(MatrixRange::from(&m, MIndexRange::new(5, 2), MIndexRange::new(0, 3)));
+        out.extend(disp2!(empty));
+    }
+    {
+        let parts = m.partition(&[1], &[2, 3]);
+        for p in &parts {
+            out.extend(disp2!(p));
+            out.extend(dbg2!(p));
+        }
+    }
+    {
+        let q = m.partition_quadrants(1, 2);
+        out.extend(disp2!(q));
+        out.extend(dbg2!(q));
+    }
+    out.extend(all4!(Matrix::from_flat_row_major((2, 2), vec![1i32, -20, 300, -4000])));
+    out
+}
+
+fn format_decompositions(rng: &mut Rng) -> Vec<String> {
+    let n = rng.range(2, 3);
+    let m = spd(rng, n);
+    let t = Tensor::from([("r", n), ("c", n)], m.row_major_iter().collect());
+    let g = Matrix::from_flat_row_major((n + 1, n), values(rng, (n + 1) * n));
+    let gt = Tensor::from([("r", n + 1), ("c", n)], g.row_major_iter().collect());
+    let mut out = vec![];
+    let ldlt = linear_algebra::ldlt_decomposition::<f64>(&m).unwrap();
+    out.extend(all4!(ldlt));
+    let ldlt_t = linear_algebra::ldlt_decomposition_tensor::<f64, _, _>(&t).unwrap();
+    out.extend(all4!(ldlt_t));
+    let qr = linear_algebra::qr_decomposition::<f64>(&g).unwrap();
+    out.extend(all4!(qr));
+    let qr_t = linear_algebra::qr_decomposition_tensor::<f64, _, _>(&gt).unwrap();
+    out.extend(all4!(qr_t));
+    out
+}
+
+fn format_errors(rng: &mut Rng) -> Vec<String> {
+    let t = Tensor::from([("a", 2), ("b", 3)], values(rng, 6));
+    let mut out = vec![];
+    let shape_err = Tensor::<f64, 2>::try_from([("x", 0), ("x", 2)], vec![]).unwrap_err();
+    out.extend(all4!(shape_err));
+    let access_err = easy_ml::tensors::indexing::TensorAccess::try_from(&t, ["b", "q"]).unwrap_err();
+    out.extend(all4!(access_err));
+    let range_err = TensorRange::from(&t, [("q", IndexRange::new(0, 1))]).unwrap_err();
+    out.extend(all4!(range_err));
+    let dims_err = TensorRange::from(&t, [("a", IndexRange::new(0, 1)), ("a", IndexRange::new(0, 1))]).unwrap_err();
+    out.extend(all4!(dims_err));
+    let strict_err = TensorRange::from_strict(&t, [("a", IndexRange::new(1, 5))]).unwrap_err();
+    out.extend(all4!(strict_err));
+    let zero_err = TensorRange::from(&t, [("a", IndexRange::new(7, 2))]).unwrap_err();
+    out.extend(all4!(zero_err));
+    let scalar_err = Matrix::from_flat_row_major((1, 2), values(rng, 2)).try_into_scalar().unwrap_err();
+    out.extend(all4!(scalar_err));
+    let mean = Tensor::from([("m", 2)], values(rng, 2));
+    let not_cov = MultivariateGaussianTensor::new(mean.clone(), Tensor::from([("r", 2), ("c", 3)], values(rng, 6))).unwrap_err();
+    out.extend(all4!(not_cov));
+    let wrong_len = MultivariateGaussianTensor::new(mean, Tensor::from([("r", 3), ("c", 3)], values(rng, 9))).unwrap_err();
+    out.extend(all4!(wrong_len));
+    let (l1, l2) = (WengertList::new(), WengertList::new());
+    let records = vec![Record::variable(1.5, &l1), Record::variable(2.5, &l2)];
+    let hist_err = RecordTensor::from_iter([("x", 2)], records.clone()).err().unwrap();
+    if let easy_ml::differentiation::iterators::InvalidRecordIteratorError::InconsistentHistory(h) = &hist_err {
+        out.extend(all4!(h));
+    }
+    out.extend(all4!(hist_err));
+    let count_err = RecordMatrix::from_iter((2, 2), records[..1].to_vec()).err().unwrap();
+    out.extend(all4!(count_err));
+    let empty_err = RecordTensor::<f64, _, 1>::from_iter([("x", 1)], Vec::<Record<f64>>::new()).err().unwrap();
+    out.extend(all4!(empty_err));
+    out
+}
+
+fn format_records(rng: &mut Rng) -> Vec<String> {
+    let list = WengertList::new();
+    let x = Record::variable(value(rng), &list);
+    let c = Record::constant(value(rng));
+    let y = &x * &c + (&x).sin();
+    let mut out = all4!(x);
+    out.extend(all4!(c));
+    out.extend(all4!(y));
+    out.extend(all4!(Trace::variable(value(rng))));
+    out.extend(all4!(Trace::constant(value(rng)) * Trace::variable(value(rng))));
+    let rt = RecordTensor::variables(&list, Tensor::from([("r", 2), ("c", 2)], values(rng, 4)));
+    out.extend(disp2!(rt));
+    out.extend(dbg2!(rt));
+    let rm = RecordMatrix::variables(&list, Matrix::from_flat_row_major((2, 2), values(rng, 4)));
+    out.extend(disp2!(rm));
+    out.extend(dbg2!(rm));
+    out.push(dg(format!("{:?}", y.derivatives())));
+    out.push(dg(format!("{:?}", list)));
+    out
+}
+
+fn format_family(family: &str, seed: u64) -> String {
+    let mut rng = Rng::new(seed);
+    let parts = match family {
+        "tensor0" => format_tensor_d::<0>(&mut rng),
+        "tensor1" => format_tensor_d::<1>(&mut rng),
+        "tensor2" => format_tensor_d::<2>(&mut rng),
+        "tensor3" => format_tensor_d::<3>(&mut rng),
+        "tensor4" => format_tensor_d::<4>(&mut rng),
+        "tensor5" => format_tensor_d::<5>(&mut rng),
+        "tensor6" => format_tensor_d::<6>(&mut rng),
+        "views" => format_views(&mut rng),
+        "matrices" => format_matrices(&mut rng),
+        "decompositions" => format_decompositions(&mut rng),
+        "errors" => format_errors(&mut rng),
+        "records" => format_records(&mut rng),
+        _ => vec!["bad-family".into()],
+    };
+    parts.join(" ¦ ")
+}
+
+/// the full text of `Display` of an i64 tensor `base, base+1, …` (negative for odd offsets), or of
+/// `index_by(names)` of it — the Lean model of `format_view` answers the same line
+fn fmtint(shape: &[(&'static str, usize)], base: i64, mode: &str) -> String {
+    crate::with_d!(shape.len(), D => {
+        let sh: [(&'static str, usize); D] = shape_array(shape);
+        let n: usize = shape.iter().map(|d| d.1).product();
+        let t = Tensor::from(sh, (0..n as i64).map(|i| if i % 2 == 1 { -(base + i) } else { base + i }).collect());
+        let text = match mode.split_once(':') {
+            Some(("access", names)) => {
+                let names: [&'static str; D] = names_array(&parse_names(names));
+                format!("{}", t.index_by(names))
+            }
+            _ if mode == "prec" => format!("{:.3}", t),
+            _ => format!("{}", t),
+        };
+        esc(&text)
+    })
+}
+
 /// the message a call panics with (`-` if it returns)
 fn panic_message<R>(f: impl FnOnce() -> R) -> String {
     match std::panic::catch_unwind(std::panic::AssertUnwindSafe(f)) {
@@ -360,6 +610,8 @@ impl Runner {
             "gaussian" => gaussian(num(2) as u64),
             "autodiff" => autodiff(num(2) as u64),
             "display" => display(num(2) as u64),
+            "format" => format_family(toks[2], num(3) as u64),
+            "fmtint" => fmtint(&parse_shape(toks[2]), toks[3].parse().expect("base"), toks[4]),
             "messages" => messages(num(2) as u64),
             "names" => names(toks[2], num(3) as u64),
             _ => "bad-op".into(),
@@ -419,6 +671,32 @@ pub fn gen(g: &mut Gen) {
         let seed = g.rng.next() % 1_000_000;
         g.count("messages");
         g.op(format!("@ messages {}", seed));
+    }
+    for family in ["tensor0", "tensor1", "tensor2", "tensor3", "tensor4", "tensor5", "tensor6", "views", "matrices",
+        "decompositions", "errors", "records"] {
+        for _ in 0..reps {
+            let seed = g.rng.next() % 1_000_000;
+            g.count(&format!("format.{}", family));
+            g.op(format!("@ format {} {}", family, seed));
+        }
+    }
+    // integer tensors of every dimensionality, full text (compared with the Lean model)
+    let names = ["a", "b", "c", "d", "e", "f"];
+    for d in 0..=6usize {
+        for _ in 0..reps * 2 {
+            let lens: Vec<usize> = (0..d).map(|_| g.rng.range(1, 3)).collect();
+            let shape = if d == 0 { "-".to_string() } else {
+                lens.iter().enumerate().map(|(i, l)| format!("{}:{}", names[i], l)).collect::<Vec<_>>().join(",")
+            };
+            let base = g.rng.below(2000) as i64 - 500;
+            let mut order: Vec<&str> = names[..d].to_vec();
+            g.rng.shuffle(&mut order);
+            let access = format!("access:{}", if d == 0 { "-".to_string() } else { order.join(",") });
+            for mode in ["plain", "prec", access.as_str()] {
+                g.count(&format!("fmtint.D{}", d));
+                g.op(format!("@ fmtint {} {} {}", shape, base, mode));
+            }
+        }
     }
     for _ in 0..reps * 3 {
         let seed = g.rng.next() % 1_000_000;
